@@ -395,4 +395,18 @@ def r8_only_this_runs_values_changed(ctx):
     r2_run_space(ctx)
 
 
-RULES = [r8_only_this_runs_values_changed, r6_set_stores_fresh_sequences, r7_no_shared_class_state, r5_readout_replace_complete, r1_fresh_copy_per_run, r2_copy_is_what_runs, r3_deepcopy_completeness, r4_shared_inputs_read_only]
+def r9_every_run_seeded_on_its_own(ctx):
+    """"Does not depend on which other runs exist, on their order": with a pipeline seed every run is seeded on its own - the seed reaches run_pipeline at every call site, which wraps the model runs of that ONE run in set_random_seed (shared with C04.R3); a stream seeded once around the loop makes run k depend on runs 0..k-1."""
+    from props.C04 import r3_mode_seed_reaches_pipeline
+
+    r3_mode_seed_reaches_pipeline(ctx)
+
+
+def r10_runs_built_from_this_calls_configuration(ctx):
+    """Every call of run_pipelines enumerates its runs from the processor it was given (get_parameters_item of the current call), validates and runs all of them (shared with C05.R6): a run list kept from an earlier call embeds that call's defaults."""
+    from props.C05 import r6_validation_first
+
+    r6_validation_first(ctx)
+
+
+RULES = [r9_every_run_seeded_on_its_own, r10_runs_built_from_this_calls_configuration, r8_only_this_runs_values_changed, r6_set_stores_fresh_sequences, r7_no_shared_class_state, r5_readout_replace_complete, r1_fresh_copy_per_run, r2_copy_is_what_runs, r3_deepcopy_completeness, r4_shared_inputs_read_only]
